@@ -19,10 +19,18 @@
      tick       component.TickLater(): reads engine time, pushes an event into the
                 engine's (unsynchronised) queue -- a WRITE, no mutex, no pause
 
-   engine.Pause() of the serial engine is one step: paused := 1 (W11).  With
-   PauseWaits = TRUE the model is the repaired design instead: the loop holds a
-   dispatch lock from its (re-)check of the flag to the end of the handler and Pause
-   waits for that lock after raising the flag.
+   engine.Pause() (PauseWaits = TRUE, the engine as it is since W11 was repaired): the
+   loop holds a dispatch lock from its re-check of the flag to the end of the handler
+   and Pause waits for that lock after raising the flag.  PauseWaits = FALSE is the old
+   engine (Pause = one step, paused := 1); it is kept only as a negative control that
+   TLC must refute (Monitor_hyp.cfg).
+   HoldCtl = TRUE: pauseForInspection keeps engineControlMu from the pause to the
+   Continue, so inspections exclude each other and /api/pause, /api/continue wait for
+   them -- the engine stays held until the LAST overlapping inspection has finished.
+   HoldCtl = FALSE is a second negative control (Monitor_negoverlap.cfg): the mutex only
+   guards the decision to pause and to resume (resume continues unless the user paused);
+   with two overlapping inspections the first to finish resumes the engine under the
+   other, and a /api/continue during the inspection of a user-paused engine does too.
 
    Conflict relation (what the statement of C40 demands): an access window of a request
    (read or write of simulation state) must not overlap the execution of an event
@@ -36,7 +44,8 @@ CONSTANTS NEvents,     \* events the simulation handles
           Clients,     \* HTTP client/handler goroutines
           MaxReq,      \* requests per client
           Endpoints,   \* endpoint classes a client may request
-          PauseWaits,  \* FALSE: the code as it is; TRUE: Pause waits for the dispatch in flight
+          PauseWaits,  \* TRUE: Pause waits for the dispatch in flight (the engine as it is); FALSE: old engine
+          HoldCtl,     \* TRUE: an inspection keeps engineControlMu until it has continued (the monitor as it is)
           Atomic,      \* TRUE: schedules a sequential controller can realise (B3 emission)
           Record       \* TRUE: keep the schedule in hist and emit BEHAVIOUR lines
 
@@ -68,7 +77,7 @@ Init == /\ lpc = "chk" /\ left = NEvents /\ flag = 0 /\ dmu = FALSE /\ running =
         /\ hist = <<>>
 
 InFlight(c) == cpc[c] # "idle"
-Blocked(c)  == \/ cpc[c] = "acq" /\ mtx # "none"
+Blocked(c)  == \/ cpc[c] \in {"acq", "racq"} /\ mtx # "none"
                \/ cpc[c] = "ewait" /\ dmu
 (* the loop is parked at a gate the controller owns (or cannot move by itself) *)
 LoopAtStop == \/ lpc \in {"chk", "hstart", "hend", "done"}
@@ -114,7 +123,7 @@ ReqStart(c, ep) ==
 
 Acquire(c) ==
     /\ cpc[c] = "acq" /\ mtx = "none"
-    /\ mtx' = c
+    /\ mtx' = (IF ~HoldCtl /\ Inspects(cep[c]) /\ mPaused THEN "none" ELSE c)   \* lock; look; unlock at once
     /\ cpc' = [cpc EXCEPT ![c] =
                  CASE cep[c] = "pause"    -> IF mPaused THEN "rel" ELSE "epause"
                    [] cep[c] = "continue" -> IF mPaused THEN "econt" ELSE "rel"
@@ -125,20 +134,21 @@ Acquire(c) ==
 (* what follows the return of engine.Pause() *)
 PauseReturned(c) ==
     IF cep[c] = "pause"
-      THEN /\ mPaused' = TRUE /\ cpc' = [cpc EXCEPT ![c] = "rel"] /\ cown' = cown
+      THEN /\ mPaused' = TRUE /\ cpc' = [cpc EXCEPT ![c] = "rel"] /\ cown' = cown /\ mtx' = mtx
       ELSE /\ mPaused' = mPaused /\ cpc' = [cpc EXCEPT ![c] = "acc"] /\ cown' = [cown EXCEPT ![c] = TRUE]
+           /\ mtx' = (IF HoldCtl THEN mtx ELSE "none")
 
 EPause(c) ==
     /\ cpc[c] = "epause"
     /\ flag' = 1
-    /\ IF PauseWaits THEN cpc' = [cpc EXCEPT ![c] = "ewait"] /\ UNCHANGED <<mPaused, cown>>
+    /\ IF PauseWaits THEN cpc' = [cpc EXCEPT ![c] = "ewait"] /\ UNCHANGED <<mPaused, cown, mtx>>
                      ELSE PauseReturned(c)
-    /\ UNCHANGED <<lpc, left, dmu, running, mtx, cep, cleft, acc, hist>>
+    /\ UNCHANGED <<lpc, left, dmu, running, cep, cleft, acc, hist>>
 
 EWait(c) ==
     /\ cpc[c] = "ewait" /\ ~dmu
     /\ PauseReturned(c)
-    /\ UNCHANGED <<lpc, left, flag, dmu, running, mtx, cep, cleft, acc, hist>>
+    /\ UNCHANGED <<lpc, left, flag, dmu, running, cep, cleft, acc, hist>>
 
 Held(c) == cown[c] \/ mPaused
 
@@ -152,8 +162,8 @@ AccBegin(c) ==
 AccEnd(c) ==
     /\ cpc[c] = "accEnd"
     /\ acc' = [acc EXCEPT ![c] = FALSE]
-    /\ IF Inspects(cep[c])
-         THEN cpc' = [cpc EXCEPT ![c] = IF cown[c] THEN "econt" ELSE "rel"] /\ cep' = cep
+    /\ IF Inspects(cep[c]) /\ (HoldCtl \/ cown[c])
+         THEN cpc' = [cpc EXCEPT ![c] = IF ~HoldCtl THEN "racq" ELSE IF cown[c] THEN "econt" ELSE "rel"] /\ cep' = cep
          ELSE cpc' = [cpc EXCEPT ![c] = "idle"] /\ cep' = [cep EXCEPT ![c] = "-"]
     /\ UNCHANGED <<lpc, left, flag, dmu, running, mtx, mPaused, cown, cleft, hist>>
 
@@ -165,6 +175,14 @@ EContinue(c) ==
     /\ cpc' = [cpc EXCEPT ![c] = "rel"]
     /\ UNCHANGED <<lpc, left, dmu, running, mtx, cep, cleft, acc, hist>>
 
+(* HoldCtl = FALSE only: the resume closure locks again and continues unless the user paused *)
+RAcq(c) ==
+    /\ cpc[c] = "racq" /\ mtx = "none"
+    /\ mtx' = c
+    /\ cown' = [cown EXCEPT ![c] = FALSE]
+    /\ cpc' = [cpc EXCEPT ![c] = IF mPaused THEN "rel" ELSE "econt"]
+    /\ UNCHANGED <<lpc, left, flag, dmu, running, mPaused, cep, cleft, acc, hist>>
+
 Release(c) ==
     /\ cpc[c] = "rel" /\ mtx = c
     /\ mtx' = "none"
@@ -172,8 +190,8 @@ Release(c) ==
     /\ UNCHANGED <<lpc, left, flag, dmu, running, mPaused, cown, cleft, acc, hist>>
 
 Client(c) == \/ \E ep \in Endpoints : ReqStart(c, ep)
-             \/ Acquire(c) \/ EPause(c) \/ EWait(c) \/ AccBegin(c) \/ AccEnd(c) \/ EContinue(c) \/ Release(c)
-ClientStep(c) == Acquire(c) \/ EPause(c) \/ EWait(c) \/ AccBegin(c) \/ AccEnd(c) \/ EContinue(c) \/ Release(c)
+             \/ Acquire(c) \/ EPause(c) \/ EWait(c) \/ AccBegin(c) \/ AccEnd(c) \/ EContinue(c) \/ RAcq(c) \/ Release(c)
+ClientStep(c) == Acquire(c) \/ EPause(c) \/ EWait(c) \/ AccBegin(c) \/ AccEnd(c) \/ EContinue(c) \/ RAcq(c) \/ Release(c)
 
 Quiet == /\ \A c \in Clients : cpc[c] = "idle" /\ cleft[c] = 0
          /\ lpc = "done" \/ (lpc = "wait" /\ flag = 1)
@@ -184,9 +202,9 @@ Spec == Init /\ [][Next]_vars /\ WF_vars(Loop) /\ \A c \in Clients : WF_vars(Cli
 TypeOK == /\ lpc \in {"chk", "load", "wait", "lockd", "hstart", "hend", "done"}
           /\ left \in 0..NEvents /\ flag \in {0, 1} /\ dmu \in BOOLEAN /\ running \in BOOLEAN
           /\ mtx \in Clients \cup {"none"} /\ mPaused \in BOOLEAN
-          /\ \A c \in Clients : /\ cpc[c] \in {"idle", "acq", "epause", "ewait", "acc", "accEnd", "econt", "rel"}
+          /\ \A c \in Clients : /\ cpc[c] \in {"idle", "acq", "epause", "ewait", "acc", "accEnd", "racq", "econt", "rel"}
                                 /\ cep[c] \in Endpoints \cup {"-"} /\ cleft[c] \in 0..MaxReq
-InCS(c) == cpc[c] \in {"epause", "ewait", "econt", "rel"} \/ (cpc[c] \in {"acc", "accEnd"} /\ UsesCtl(cep[c]))
+InCS(c) == cpc[c] \in {"epause", "ewait", "econt", "rel"} \/ (cpc[c] \in {"acc", "accEnd"} /\ UsesCtl(cep[c]) /\ HoldCtl)
 (* engineControlMu: at most one control/inspection request in its critical section *)
 MutexOK == \A c \in Clients : InCS(c) => mtx = c
 (* the monitor's enginePaused mirrors the engine flag whenever no control request is in
@@ -198,6 +216,10 @@ RunningOK == running <=> lpc = "hend"
 DispatchLockOK == PauseWaits => (dmu <=> lpc \in {"hstart", "hend"})
 (* an inspection never reads without a pause requested (its own or the user's) *)
 InspectUnderFlag == \A c \in Clients : (acc[c] /\ Inspects(cep[c])) => flag = 1
+
+(* the engine stays held, and no handler executes, until the LAST overlapping inspection
+   has finished (also when /api/continue or another inspection arrives meanwhile) *)
+InspectionHeld == \A c \in Clients : (acc[c] /\ Inspects(cep[c])) => (flag = 1 /\ ~running)
 
 (* what C40 demands *)
 NoConcurrentAccess == \A c \in Clients : acc[c] => ~running
